@@ -614,53 +614,41 @@ def macro_doubling(repo, res):
         off = [x for tup in offs for x in tup if x][0]
         if not re.search(rf"offset={off}\b", gs):
             res.fail(key, "the computed offset is not the one stored in the table reference", et.line(g.node))
-    # '-' coordinate shift (definitions)
-    dm = repo.mod("ffcx.codegeneration.definitions")
-    h = dm.func("FFCXBackendDefinitions._define_coordinate_dofs_lincomb")
-    res.functions.add(h.key)
-    hs = ast.unparse(h.node)
-    key = f"{h.key}:minus-coordinate-shift"
-    res.ob(key)
-    m = _find(hs, r"if (?P<test>[^\n]*restriction[^\n]*):\n\s+(?P<off>\w+) = (?P<a>\w+) \* (?P<b>\w+)\n", "coordinate shift of the '-' cell")
-    consts = {}
-    for nm in (m.group("a"), m.group("b")):
-        mm = re.search(rf"\b{nm} = (\d+)\n", hs)
-        consts[nm] = int(mm.group(1)) if mm else (int(nm) if nm.isdigit() else None)
-    nd = [nm for nm in (m.group("a"), m.group("b")) if consts[nm] is None]
-    three = [nm for nm in (m.group("a"), m.group("b")) if consts[nm] == 3]
-    if m.group("test").replace(" ", "") != "mt.restriction=='-'" or len(three) != 1 or len(nd) != 1:
-        res.fail(key, f"coordinate offset of the \"-\" cell is `{m.group('a')} * {m.group('b')}` under `{m.group('test')}`; "
-                 "ufcx.h: coordinate_dofs[restriction][num_dofs][3]", dm.line(h.node))
-    else:
-        if not re.search(rf"{nd[0]} = coordinate_element\._sub_element\.dim\b", hs):
-            res.fail(key, f"`{nd[0]}` is not the number of scalar coordinate dofs", dm.line(h.node))
-        off = m.group("off")
-        if not re.search(rf"\b{off} = 0\b", hs):
-            res.fail(key, "coordinate offset is not 0 for the '+' / unrestricted cell", dm.line(h.node))
-        ma = _find(hs, r"AssignAdd\(\w+, (?P<arr>\w+)\[(?P<idx>[^\]]+)\] \* \w+\)", "coordinate dof access")
-        idx = ma.group("idx")
-        terms = [x.strip() for x in idx.split("+")]
-        stride_ok = any(re.fullmatch(rf"\w+\.global_index \* ({three[0]}|3)|({three[0]}|3) \* \w+\.global_index", x) for x in terms)
-        if not stride_ok or off not in terms or "begin" not in terms:
-            res.fail(key, f"coordinate_dofs are addressed at `[{idx}]`, expected [3*ic + component + shift]", dm.line(h.node))
-        if not re.search(rf"{ma.group('arr')} = L\.Symbol\('coordinate_dofs'", hs):
-            res.fail(key, "the array read is not coordinate_dofs", dm.line(h.node))
+    # '-' coordinate shift in the definitions of x and J: decided by GEN-DEFS (the definition functions interpreted on samples)
+    # '-' coordinate shift in direct vertex-coordinate access: domain_dof_access interpreted
+    from ..absint import Interp as _I, Node as _N, Raised as _R
+    from ..lnexec import Exec as _Exec
+    from ..lnodes_model import load_classes as _lc
+
     sm = repo.mod(SYMBOLS)
     d = sm.func("FFCXBackendSymbols.domain_dof_access")
-    ds = ast.unparse(d.node)
-    key = f"{d.key}:minus-coordinate-shift"
-    res.ob(key)
-    m = _find(ds, r"if (?P<test>[^\n]*restriction[^\n]*):\n\s+(?P<off>\w+) = (?P<a>\w+) \* (?P<b>\w+)\n", "coordinate shift in domain_dof_access")
-    ab = {m.group("a"), m.group("b")}
-    if m.group("test").replace(" ", "") != "restriction=='-'" or ab != {"num_scalar_dofs", "3"}:
-        res.fail(key, f"domain_dof_access shifts the \"-\" cell by `{m.group('a')} * {m.group('b')}` under `{m.group('test')}`", sm.line(d.node))
-    off = m.group("off")
-    mr = _find(ds, r"return self\.coordinate_dofs\[(?P<idx>[^\]]+)\]", "domain_dof_access return")
-    terms = [x.strip() for x in mr.group("idx").split("+")]
-    if sorted(terms) != sorted(["3 * dof", "component", off]) and sorted(terms) != sorted(["dof * 3", "component", off]):
-        res.fail(key, f"domain_dof_access reads coordinate_dofs[{mr.group('idx')}], expected [3*dof + component + shift]", sm.line(d.node))
-    if not re.search(rf"\b{off} = 0\b", ds):
-        res.fail(key, "coordinate shift is not 0 for '+'", sm.line(d.node))
+    res.functions.add(d.key)
+    it_ = _I(repo, _lc(repo), primary=SYMBOLS)
+    it_.obj_classes["FFCXBackendSymbols"] = SYMBOLS
+    symbols = _N("FFCXBackendSymbols", coordinate_dofs=it_.construct("Symbol", ["coordinate_dofs", "DataType.REAL"], {}))
+    nsd = 3
+    for restr in (None, "+", "-"):
+        key = f"{d.key}:minus-coordinate-shift:{restr}"
+        res.ob(key)
+        bad = None
+        for dof in (0, 2):
+            for comp in (0, 1, 2):
+                try:
+                    acc = it_.call_f(d, [symbols, dof, comp, 2, nsd, restr])
+                    ex = _Exec(())
+                    arr = acc.f["array"].f["name"]
+                    idx = tuple(ex.index(i) for i in acc.f["indices"])
+                except _R as e:
+                    bad = f"raises {e.what}"
+                    break
+                want = (3 * dof + comp + (3 * nsd if restr == "-" else 0),)
+                if arr != "coordinate_dofs" or idx != want:
+                    bad = f"reads {arr}{list(idx)} for dof {dof}, component {comp}; ufcx.h: coordinate_dofs[restriction][num_dofs][3] -> [{want[0]}]"
+                    break
+            if bad:
+                break
+        if bad:
+            res.fail(key, f"domain_dof_access with restriction {restr!r} {bad}", sm.line(d.node))
 
 
 @rule(
